@@ -13,11 +13,12 @@ import (
 	"verifharness/lib"
 
 	"github.com/ipld/go-ipld-prime/codec/dagcbor"
+	"github.com/ipld/go-ipld-prime/datamodel"
 	"github.com/ipld/go-ipld-prime/node/basicnode"
 )
 
 type opts struct {
-	strict, links, beyond bool
+	strict, links, beyond, perm bool
 	budget, depth         int64
 }
 
@@ -28,7 +29,7 @@ func (o opts) String() string {
 		}
 		return "0"
 	}
-	return fmt.Sprintf("s%sl%se%sb%dd%d", b(o.strict), b(o.links), b(o.beyond), o.budget, o.depth)
+	return fmt.Sprintf("s%sl%se%sb%dd%dt%s", b(o.strict), b(o.links), b(o.beyond), o.budget, o.depth, b(o.perm))
 }
 
 func parseOpts(s string) opts {
@@ -38,23 +39,42 @@ func parseOpts(s string) opts {
 	o.beyond = s[5] == '1'
 	rest := s[7:]
 	i := strings.IndexByte(rest, 'd')
+	j := strings.IndexByte(rest, 't')
 	o.budget, _ = strconv.ParseInt(rest[:i], 10, 64)
-	o.depth, _ = strconv.ParseInt(rest[i+1:], 10, 64)
+	o.depth, _ = strconv.ParseInt(rest[i+1:j], 10, 64)
+	o.perm = rest[j+1:] == "1"
 	return o
 }
 
 func observe(o opts, in []byte) string {
 	nb := basicnode.Prototype.Any.NewBuilder()
+	pb := lib.NewPermBuilder()
+	var na datamodel.NodeAssembler = nb
+	if o.perm {
+		// a permissive assembler that refuses nothing (in particular not repeated keys): what is
+		// accepted here is accepted by the decoder itself
+		na = pb.Assembler()
+	}
 	rd := bytes.NewReader(in)
 	err := lib.Safely(func() error {
 		return dagcbor.DecodeOptions{AllowLinks: o.links, RelaxedDecode: !o.strict, DontParseBeyondEnd: o.beyond,
-			AllocationBudget: o.budget, MaxDepth: o.depth}.Decode(nb, rd)
+			AllocationBudget: o.budget, MaxDepth: o.depth}.Decode(na, rd)
 	})
 	if err != nil {
 		return "err:" + lib.CborErrClass(err)
 	}
 	var dump string
-	perr := lib.Safely(func() error { dump = lib.Dump(nb.Build()); return nil })
+	perr := lib.Safely(func() error {
+		if o.perm {
+			if pb.Value() == nil {
+				return fmt.Errorf("no value")
+			}
+			dump = pb.Value().Text()
+		} else {
+			dump = lib.Dump(nb.Build())
+		}
+		return nil
+	})
 	if perr != nil {
 		return "err:panic-on-read"
 	}
@@ -100,6 +120,13 @@ func main() {
 		emit(next("k"), defaultOpts, []byte(lib.UnHex(h)))
 		emit(next("k"), opts{strict: false, links: true}, []byte(lib.UnHex(h)))
 		emit(next("k"), opts{strict: true, links: false}, []byte(lib.UnHex(h)))
+		emit(next("k"), opts{strict: true, links: true, perm: true}, []byte(lib.UnHex(h)))
+	}
+	// duplicate keys in every position pattern, into the permissive assembler (strict mode must refuse all)
+	for _, h := range []string{"a2616101616102", "a3616101616202616103", "a3616201616102616203", "a3616101616101616202", "a3616101616202616202",
+		"a46161016162026163036161 04", "a4616301616201616101616302", "a26001600 2", "a2616101a2616201616202", "a1616181a2616101616102", "a36162016161026162 03"} {
+		emit(next("d"), opts{strict: true, links: true, perm: true}, []byte(lib.UnHex(strings.ReplaceAll(h, " ", ""))))
+		emit(next("d"), opts{strict: true, links: true}, []byte(lib.UnHex(strings.ReplaceAll(h, " ", ""))))
 	}
 	// exhaustive short strings (strict default; every 7th also relaxed)
 	for a := 0; a < 256; a++ {
@@ -170,6 +197,11 @@ func main() {
 		}
 		base := next("g")
 		emit(base, o, in)
+		if o.strict {
+			po := o
+			po.perm = true
+			emit(base+".p", po, in)
+		}
 		// 2. byte-level mutations of it
 		for k := 0; k < 3; k++ {
 			emit(fmt.Sprintf("%s.m%d", base, k), o, rng.ByteMutate(in, 1+rng.Intn(2)))
